@@ -121,7 +121,7 @@ func TestVerifC04Brar(t *testing.T) {
 
 	perKind, rounds := 2, 3
 	if tier == "thorough" {
-		perKind, rounds = 30, 6
+		perKind, rounds = 20, 6
 	}
 	caseID := 0
 	for ki, kind := range c04Kinds {
@@ -243,6 +243,11 @@ func TestVerifC04Brar(t *testing.T) {
 			}
 			record()
 
+			lifeStore, lsErr := c04OpenStore(t.TempDir())
+			if lsErr != nil {
+				t.Fatalf("retribution store: %v", lsErr)
+			}
+			var retPool []*retributionInfo
 			for v := 0; v < 2; v++ {
 				vst := ch[v].State()
 				vn := [2]string{"A", "B"}[v]
@@ -311,6 +316,16 @@ func TestVerifC04Brar(t *testing.T) {
 						emit("spendHTLCs", txs.spendHTLCs, prev)
 					}()
 
+					// what happens after the first justice transactions were signed
+					// (second-level advances, partial confirmations, restart)
+					retPool = append(retPool, newRetributionInfo(&vst.FundingOutpoint, br))
+					for i := range retPool[len(retPool)-1].breachedOutputs {
+						o := *retPool[len(retPool)-1].breachedOutputs[i].signDesc.Output
+						retPool[len(retPool)-1].breachedOutputs[i].signDesc.Output = &o
+					}
+					(&c04Life{w: w, r: r, ctx: ctx, brar: brar, store: lifeStore, vst: vst,
+						br: br, ctTx: ctTx, thaw: thaw}).run()
+
 					// the cheater takes every HTLC to the second level first
 					isRemoteInitiator := !vst.IsInitiator
 					for i := range br.HtlcRetributions {
@@ -365,6 +380,12 @@ func TestVerifC04Brar(t *testing.T) {
 					}
 				}
 			}
+			lifeStore.close()
+			nOps := 30
+			if tier == "thorough" {
+				nOps = 60
+			}
+			c04StoreScenario(w, r, t.TempDir(), retPool, nOps)
 			// Real chain watcher on its own, earlier loaded copy of the channel:
 			// one spend of a state revoked before the copy was taken and one
 			// revoked afterwards must both be recognised (handleCommitSpend ->
